@@ -175,7 +175,7 @@ func (cl *Cluster) Write(i int, shard int, w *World, p Point) error {
 		m.Tags = append(m.Tags, &protoMetricsV1.KeyValue{Key: key, Value: w.Series[p.Series].Tags[k]})
 	}
 	f := w.Fields[p.Field]
-	m.SimpleFields = append(m.SimpleFields, &protoMetricsV1.SimpleField{Name: f.Name, Value: float64(p.Val), Type: protoType[f.Type]})
+	m.SimpleFields = append(m.SimpleFields, &protoMetricsV1.SimpleField{Name: f.Name, Value: pointValue(p), Type: protoType[f.Type]})
 	ml := protoMetricsV1.MetricList{Metrics: []*protoMetricsV1.Metric{m}}
 	var buf bytes.Buffer
 	conv := metric.NewProtoConverter(models.NewDefaultLimits())
@@ -211,7 +211,7 @@ func (cl *Cluster) Query(i int, nShards int, w *World, q *QueryDef, receivers []
 	cl.seq++
 	req := &protoCommonV1.TaskRequest{RequestID: fmt.Sprintf("q%d", cl.seq), RequestType: protoCommonV1.RequestType_Data,
 		PhysicalPlan: encoding.JSONMarshal(plan), Payload: payload}
-	tctx := flow.NewTaskContextWithTimeout(context.Background(), 20*time.Second)
+	tctx := flow.NewTaskContextWithTimeout(context.Background(), 2*leafTimeout)
 	out := make([]*protoCommonV1.TaskResponse, len(receivers))
 	if err := cl.proc.Process(tctx, cl.streams[receivers[0]], req); err != nil {
 		// TaskHandler.process answers the requester with the error
@@ -223,7 +223,7 @@ func (cl *Cluster) Query(i int, nShards int, w *World, q *QueryDef, receivers []
 	for k, r := range receivers {
 		select {
 		case out[k] = <-cl.streams[r].ch:
-		case <-time.After(25 * time.Second):
+		case <-time.After(2*leafTimeout + 2*time.Second):
 			return nil, fmt.Errorf("leaf %d: no response for receiver %s", i, r)
 		}
 	}
@@ -390,5 +390,6 @@ func runLayoutL2e(c *core.Ctx, w *World, q *QueryDef, l *Layout, ctxBase int, em
 		full = fr.res
 	}
 	op(q.resultOp(ctxBase), res.line(q, full))
+	checkTopN(c, q, res, full)
 	return runOut{res: res, full: full}, nil
 }
